@@ -27,6 +27,11 @@ RULE = ("TLC enumerates the perturbation graph of EqContract!ClassTable: for eac
         "Each explored state is one case = one edge (x -> y: ==, != in both directions, both hashes) plus, the first "
         "time a valuation is seen, the node tests on y (x == x, deepcopy, independent rebuild, hash twice). "
         "Plus seeded random edges between arbitrary valuations (1500 quick / 15000 thorough). "
+        "History dimension: every node (setters: nodes of depth <= MutDepth = 0 quick / 1 thorough) is changed IN PLACE "
+        "by each public mutator of EqContract (attribute setters / add_* / remove_*, translate_rotate with a lattice "
+        "motion, convert_to_2d), once after == and hash() were evaluated on it (warm) and once cold, and compared with "
+        "fresh objects built from the raw values of the new and of the old valuation; plus 1000 / 10000 seeded random "
+        "mutations from arbitrary valuations. "
         "distinct_nontrivial = distinct (class, x valuation, y valuation, kind) with x # y.")
 ASSUMPTIONS = ["'constructor-visible attribute' = parameter of the public constructor; parameters that are only valid "
                "together form one group (joint domain); content of LaneletNetwork / Scenario is added through the "
@@ -36,9 +41,15 @@ ASSUMPTIONS = ["'constructor-visible attribute' = parameter of the public constr
                "lists in another order are different values and are not demanded to be equal",
                "hash crashes are attributed once: to a seed (sig <Class>.@default / <Class>.@full) or to the edge "
                "whose perturbation introduces the crash (hash(x) fine, hash(y) raises; sig <Class>.<group>)",
-               "ScenarioID prediction_id 1 vs [1]: the statement is silent -> EITHER (declared in EqContract!Either)",
+               "pairs about which the statement is silent are declared in EqContract!Either (currently none)",
                "MapInformation.date is never left at its default (the default is the wall clock, not a value)",
-               "expected answers come from EqContract!Expected3 evaluated by TLC on the logged valuations"]
+               "expected answers come from EqContract!Expected3 evaluated by TLC on the logged valuations",
+               "history: the reference objects are built from raw values to which the HARNESS applies the motion "
+               "(p -> R(pi/2)(p + (7, 11)), angles + pi/2; 3-d variants with z = 5), restricted to the groups "
+               "EqContract!Moved / Flat name (what translate_rotate has to move is C05); a mutator that raises is a "
+               "machinery failure (the table promises applicability), never a violation",
+               "history: setters cannot 'omit' (no transition to the default token); transitions a single public call "
+               "cannot make are excluded in EqContract!SpecialPairs / NoSetter / MoveBlockedBy with the reason"]
 
 OMIT = "<omit>"          # token value: do not pass the parameter(s) at all (constructor default)
 _TABLE = None
@@ -216,8 +227,8 @@ def _build_table():
                          velocity=3.0 + (EPS if k == 1 else 0.0), steering_angle=0.0)
 
     def pm(t, k=0):
-        return S.PMState(time_step=t, position=pt(1.0 + t, 2.0), velocity=3.0 + (EPS if k == 1 else 0.0),
-                         velocity_y=0.0)
+        # without velocity_y: PMState.translate_rotate raises once both velocities are given (C05 finding)
+        return S.PMState(time_step=t, position=pt(1.0 + t, 2.0), velocity=3.0 + (EPS if k == 1 else 0.0))
 
     def traj(k=0):
         return Trajectory(1, [ks(1), ks(2, k)])
@@ -289,7 +300,9 @@ def _build_table():
         return TrafficLight(tid, pt(0.0, 1.0), cycle(k))
 
     def inter(xid=50, k=0):
-        return Intersection(xid, [incoming(51, k)], set([2]))
+        # refers to no lanelet: add_/remove_lanelet clean up dangling references of intersections (C10), which
+        # would couple the content groups of a network
+        return Intersection(xid, [IntersectionIncomingElement(51, set(), set(), set(), set(), 5 + k)], set())
 
     def plain_border(bid=1, k=0):     # without `adjacent`: keeps AreaBorder's own hash defect out of the containers
         return AreaBorder(bid, np.array([[0.0, 0.0], [1.0, 0.0 + (EPS if k == 1 else 0.0)]]))
@@ -304,6 +317,8 @@ def _build_table():
         n = LaneletNetwork(minfo())
         n.add_lanelet(lanelet(1, 0.0, k))
         n.add_lanelet(lanelet(2, 1.0))
+        n.add_traffic_sign(tsign(30), set())
+        n.add_traffic_light(tlight(40), set())
         return n
 
     def sobst(oid=100, k=0):
@@ -326,7 +341,10 @@ def _build_table():
                              v2=arr([1.0 + EPS, 2.0]))])
     add("Polygon", Polygon, [P("vertices", v1=arr([0.0, 0.0], [2.0, 0.0], [2.0, 2.0], [0.0, 2.0]),
                                v2=arr([0.0, 0.0], [2.0, 0.0], [2.0, 2.0 + EPS], [0.0, 2.0]),
-                               v3=arr([0.0, 0.0], [2.0, 0.0], [2.0, 2.0]))])
+                               v3=arr([0.0, 0.0], [2.0, 0.0], [2.0, 2.0]))],
+        # the constructor normalises the vertices (closed, orientation), the setter stores what it gets:
+        # assign the value a polygon with the new vertices HAS
+        setters={"vertices": lambda x, a, b, val_of: setattr(x, "vertices", Polygon(**val_of(b)).vertices)})
     add("ShapeGroup", ShapeGroup, [P("shapes", v1=lambda: [rect(), circ()], v2=lambda: [rect(), circ(1)],
                                      v3=lambda: [rect()])])
     add("Interval", Interval, [real("start", 1.0, False), real("end", 2.0, False)])
@@ -570,7 +588,7 @@ def _build_table():
         P("map_name", d=OMIT, v1="Muc", v2="Lohmar"), P("map_id", d=OMIT, v1=2, v2=3),
         P("configuration_id", d=OMIT, v1=2, v2=3),     # None becomes 1 next to a behaviour: keep away from 1
         J("behavior", [ob, pi], d=OMIT, v1=lambda: {ob: "T", pi: 1}, v2=lambda: {ob: "T", pi: 2},
-          v3=lambda: {ob: "S", pi: 1}, v4=lambda: {ob: "T", pi: [1]}),
+          v3=lambda: {ob: "S", pi: 1}, v4=lambda: {ob: "T", pi: [1, 2]}),
         P("scenario_version", d=OMIT, v1="2018b")])
     add("GeoTransformation", GeoTransformation, [
         P("geo_reference", d=OMIT, v1="+proj=utm +zone=32", v2="+proj=utm +zone=33"), real("x_translation", 1.0),
@@ -622,12 +640,12 @@ def table():
     return _TABLE
 
 
-def build(cls, valuation, mot="id", moved=()):
+def build(cls, valuation, mot="id", moved=(), reverse=False):
     """gamma: (class, {group: token}, motion mark) -> a fresh real object built through the public constructor.
     The raw values of the groups in `moved` are produced under the motion mark (moved / 3-d) by the harness."""
     c = table()[cls]
     kw = {}
-    for g, tok in valuation.items():
+    for g, tok in (reversed(list(valuation.items())) if reverse else valuation.items()):   # keyword order
         _MOT[0] = mot if g in moved else "id"
         try:
             kw.update(c.groups[g][tok]())
@@ -674,7 +692,7 @@ def check_mutators(motion, setters, ctx):
     py = table()
     for cname, e in sorted(py.items()):
         for mk, meth in (("move", "translate_rotate"), ("flat", "convert_to_2d")):
-            named, has = bool(motion[cname][mk]), callable(getattr(e.ctor, meth, None))
+            named, has = mk in motion[cname]["has"], callable(getattr(e.ctor, meth, None))
             if named and not has:
                 raise tlc.MachineryError("EqContract!%s names %s.%s, which does not exist" %
                                          ("Moved" if mk == "move" else "Flat", cname, meth))
@@ -798,7 +816,8 @@ def _random_mutations(spec, motion, setters, rng, n):
         x = {g: rng.choice(toks) for g, toks in spec[cls].items()}
         cand = [("set", g, b, name) for g in x for (a, b, name) in setters[cls][g] if a == x[g]]
         for mk, name in (("move", "translate_rotate"), ("flat", "convert_to_2d")):
-            if any(x[g] != "d" or g in motion[cls]["always"] for g in motion[cls][mk]):
+            blocked = mk == "move" and motion[cls]["blocked"] and all(x[g] != "d" for g in motion[cls]["blocked"])
+            if any(x[g] != "d" or g in motion[cls]["always"] for g in motion[cls][mk]) and not blocked:
                 cand += [(mk, None, None, name)] * 3
         if not cand:
             continue
@@ -892,7 +911,8 @@ def execute(case):
         root = 1 if kind == "node" else 0
         ev.append(_event(cls, yv, yv, "node", y, y, sig, root))
         ev.append(_event(cls, yv, yv, "copy", y, copy.deepcopy(y), cls + ".@deepcopy"))
-        ev.append(_event(cls, yv, yv, "copy", y, build(cls, yv), cls + ".@rebuild"))
+        # independent rebuild, keyword arguments in reverse order (matters for **kwargs constructors: CustomState)
+        ev.append(_event(cls, yv, yv, "copy", y, build(cls, yv, reverse=True), cls + ".@rebuild"))
     return {"ev": ev}
 
 
